@@ -36,7 +36,7 @@ fn pick_custom(rng: &mut Rng, level: u8) -> Filt {
     let table = simexec::exec::CUSTOM_TABLE;
     loop {
         let (fam, g10, sup) = *rng.pick(&table);
-        let mild = fam == 0 || (fam == 2 && g10 <= 10) || (fam == 1 && g10 <= 2);
+        let mild = fam == 0 || (fam == 2 && g10 <= 10) || (fam == 1 && g10 <= 2) || fam >= 4;
         if level >= 2 || mild {
             return Filt::Custom { family: fam, gain: f(g10 as f64 / 10.0), support: f(sup) };
         }
